@@ -20,7 +20,46 @@ from .core import SR, SB, HarnessError, has_sym, is_sym, lift, ite, where, smin,
 class SymArray(_np.ndarray):
     """object ndarray reproducing numpy's "size-1 array assigned to a scalar slot" rule"""
 
+    # comparisons keep symbolic booleans as objects (numpy's default object loops would call bool() on every element, i.e.
+    # fork per element); a symbolic mask is only decided when it is actually used for indexing
+    def _cmp(self, o, uf):
+        if has_sym(self) or has_sym(o):
+            return uf(_np.asarray(self), o if not isinstance(o, _np.ndarray) else _np.asarray(o), dtype=object).view(SymArray)
+        return uf(_np.asarray(self), o)
+
+    def __lt__(self, o):
+        return self._cmp(o, _np.less)
+
+    def __le__(self, o):
+        return self._cmp(o, _np.less_equal)
+
+    def __gt__(self, o):
+        return self._cmp(o, _np.greater)
+
+    def __ge__(self, o):
+        return self._cmp(o, _np.greater_equal)
+
+    def __eq__(self, o):
+        return self._cmp(o, _np.equal)
+
+    def __ne__(self, o):
+        return self._cmp(o, _np.not_equal)
+
+    __hash__ = None
+
+    @staticmethod
+    def _key(k):
+        if isinstance(k, tuple):
+            return tuple(SymArray._key(x) for x in k)
+        if isinstance(k, _np.ndarray) and k.dtype == object and k.size and all(isinstance(x, (SB, bool, _np.bool_)) for x in k.ravel()):
+            return _np.array([bool(x) for x in k.ravel()], dtype=bool).reshape(k.shape)  # decided here (forks per symbolic element)
+        return k
+
+    def __getitem__(self, k):
+        return _np.ndarray.__getitem__(self, SymArray._key(k))
+
     def __setitem__(self, k, v):
+        k = SymArray._key(k)
         if isinstance(v, _np.ndarray) and v.size == 1 and v.ndim >= 1:
             try:
                 tgt = _np.ndarray.__getitem__(self, k)
@@ -29,6 +68,19 @@ class SymArray(_np.ndarray):
             except Exception:
                 pass
         _np.ndarray.__setitem__(self, k, v)
+
+    def __array_wrap__(self, out_arr, context=None, *a):
+        # numpy wraps reduction / ufunc results of ndarray subclasses in 0-d arrays where a plain ndarray would give a scalar;
+        # a 0-d array stored into an object slot is stored *as the array object* (aliasing): keep numpy's scalar behaviour
+        if isinstance(out_arr, _np.ndarray) and out_arr.ndim == 0:
+            return out_arr[()]
+        return _np.ndarray.__array_wrap__(self, out_arr, context, *a) if isinstance(out_arr, _np.ndarray) else out_arr
+
+    def sum(self, *a, **k):
+        r = _np.ndarray.sum(self, *a, **k)
+        if isinstance(r, _np.ndarray) and r.ndim == 0:
+            return r[()]
+        return r
 
     def _fold(self, f, axis, name):
         if not has_sym(self):
@@ -54,7 +106,9 @@ class SymArray(_np.ndarray):
 
 
 def S(x):
-    """View as SymArray if object ndarray"""
+    """View as SymArray if object ndarray (0-d results are returned as scalars, as numpy does for plain arrays)"""
+    if isinstance(x, _np.ndarray) and x.ndim == 0:
+        return x[()]
     if isinstance(x, _np.ndarray) and x.dtype == object and not isinstance(x, SymArray):
         return x.view(SymArray)
     return x
